@@ -19,7 +19,7 @@ LEVEL = 'exploration'
 RULE = ('case = key shape (generated from the seed) or a concatenation of shapes; one evaluation per export/import pass compared; non-trivial = shape with at '
         'least two components carrying signatures, or a non-exportable signature, or equal creation times; distinct = distinct shape descriptors')
 ASSUMPTIONS = ['vf.ref.grammar transferable-key parser (11.1/11.2)', 'signature validity per vf.ref.sig']
-MIN_COUNTERS = {'quick': {'shapes': 100, 'passes_compared': 500, 'signatures_reverified': 1500, 'nonexportable_seen': 20, 'concatenations': 20, 'copies': 120, 'foreign_encoded_keys': 15},
+MIN_COUNTERS = {'quick': {'shapes': 100, 'passes_compared': 500, 'signatures_reverified': 1500, 'nonexportable_seen': 20, 'concatenations': 20, 'copies': 120, 'foreign_encoded_keys': 15, 'generated_keys': 10},
                 'thorough': {'shapes': 1500}}
 BUDGET = {'quick': (600, 1500), 'thorough': (1800, 3600)}
 TECHNIQUE = 'runtime monitoring: differential reference-model monitor (independent transferable-key parser + verifier) over generated key shapes'
@@ -32,6 +32,12 @@ def cases(tier, seed):
         cs.append({'t': 'shape', 'i': i, 'seed': seed})
     for i in range(24 if tier == 'quick' else 800):
         cs.append({'t': 'concat', 'i': i, 'seed': seed})
+    tnames = ['none', 'utc', 'plus0530', 'minus0800', 'micro', 'plus14']
+    for j, alg in enumerate(['ed', 'p256', 'k256', 'p521']):
+        for n_, tn in enumerate(tnames):
+            if tier == 'quick' and (j + n_) % 2:
+                continue
+            cs.append({'t': 'generated', 'alg': alg, 'time': tn, 'subtime': tnames[(n_ + 1 + j) % len(tnames)]})
     # whole keys written by the reference encoder/signer in encodings that are legal but not PGPy's own
     pairs = [('ed25519_0', 'cv25519_0'), ('rsa1024_0', 'ed25519_1'), ('ecdsa_p256_0', 'ecdh_p256_1+kdf10.9'), ('dsa1024_0', None), ('ecdsa_p384_0', 'rsa1024_1'), ('ed25519_1', 'ecdsa_p256_1')]
     for j, style in enumerate(foreignkey.STYLES):
@@ -75,6 +81,8 @@ def run_case(ctx, d):
             _check_key(ctx, pgpy, k, info, shape, r)
         elif d['t'] == 'concat':
             _concat(ctx, d, pgpy)
+        elif d['t'] == 'generated':
+            _generated(ctx, d, pgpy)
         elif d['t'] == 'foreignenc':
             _foreignenc(ctx, d, pgpy)
         else:
@@ -129,6 +137,12 @@ def _check_key(ctx, pgpy, k, info, shape, r):
                 ctx.fail('single-key-import-yields-extra-keys', dict(where, half=half, n=len(extra)))
             if str(k2.fingerprint) != str(k.fingerprint) or k2.is_public != obj.is_public:
                 ctx.fail('fingerprint-or-half-changes', dict(where, half=half, form=form))
+            if sorted(str(x.fingerprint) for x in k2.subkeys.values()) != sorted(str(x.fingerprint) for x in obj.subkeys.values()) or sorted(k2.subkeys) != sorted(obj.subkeys):
+                ctx.fail('subkey-fingerprints-change', dict(where, half=half, form=form, before=sorted(str(x.fingerprint) for x in obj.subkeys.values()),
+                                                           after=sorted(str(x.fingerprint) for x in k2.subkeys.values())))
+            ref_fprs = sorted(RK.fingerprint(RK.parse_pub(p_.body)['pubbody']).hex().upper() for p_ in wire.split(blob) if p_.tag in (5, 6, 7, 14))
+            if sorted([str(k2.fingerprint)] + [str(x.fingerprint) for x in k2.subkeys.values()]) != ref_fprs:
+                ctx.fail('fingerprints-differ-from-those-of-the-exported-packets', dict(where, half=half, form=form, exported=ref_fprs))
             t2 = keyshape.obj_tree(k2)
             dd = keyshape.tree_diff(bt[0], t2)
             if dd:
@@ -223,6 +237,26 @@ def _concat(ctx, d, pgpy):
             if dd:
                 ctx.fail('concatenated-key-structure-differs', {'n': n, 'form': form, 'differs': dd})
     ctx.nontrivial({'concat': d['i'], 'n': n})
+
+
+def _generated(ctx, d, pgpy):
+    """keys PGPy generates itself, with creation times given the ways a caller can give them (none, UTC, other zones, sub-second), primary and subkeys"""
+    from datetime import datetime, timezone, timedelta
+    from pgpy.constants import PubKeyAlgorithm as A, EllipticCurveOID as C, KeyFlags
+    specs = {'ed': (A.EdDSA, C.Ed25519), 'p256': (A.ECDSA, C.NIST_P256), 'k256': (A.ECDSA, C.SECP256K1), 'p521': (A.ECDSA, C.NIST_P521)}
+    times = {'none': None, 'utc': datetime(2020, 2, 29, 23, 59, 59, tzinfo=timezone.utc), 'plus0530': datetime(2021, 7, 15, 12, 0, 0, tzinfo=timezone(timedelta(hours=5, minutes=30))),
+             'minus0800': datetime(2019, 11, 3, 1, 30, 0, tzinfo=timezone(timedelta(hours=-8))), 'micro': datetime(2022, 1, 1, 0, 0, 0, 999999, tzinfo=timezone.utc),
+             'plus14': datetime(2000, 1, 1, 0, 0, 1, tzinfo=timezone(timedelta(hours=14)))}
+    r = ctx.rng('generated', d['alg'], d['time'])
+    kw = {} if times[d['time']] is None else {'created': times[d['time']]}
+    k = pgpy.PGPKey.new(*specs[d['alg']], **kw)
+    k.add_uid(pgpy.PGPUID.new('Generated %s %s' % (d['alg'], d['time']), email='g@example.org'), usage={KeyFlags.Certify, KeyFlags.Sign})
+    sub = pgpy.PGPKey.new(A.ECDH, C.Curve25519, **({} if times[d['subtime']] is None else {'created': times[d['subtime']]}))
+    k.add_subkey(sub, usage={KeyFlags.EncryptCommunications, KeyFlags.EncryptStorage})
+    sub2 = pgpy.PGPKey.new(A.EdDSA, C.Ed25519, **kw)
+    k.add_subkey(sub2, usage={KeyFlags.Sign})
+    ctx.count('generated_keys')
+    _check_key(ctx, pgpy, k, {'nonexportable': [], 'exportable': []}, {'generated': d['alg'], 'created': d['time'], 'subkey_created': d['subtime']}, r)
 
 
 def _foreignenc(ctx, d, pgpy):
